@@ -395,6 +395,35 @@ def encode_scase(tr, max_legs=None):
     return "{| sc_k := %s; sc_periodic := %s; sc_end := %s |}" % (k, C.coq_list(per), endt)
 
 
+def encode_ncase(tr, max_legs=None, which=0):
+    """Model/SampleCount.v ncase of the which-th fixed-interval (sampling / dumping) handler of a traced run with a
+    configured end time: kind 1 = this handler committed, 2 = an end-of-run handler committed, 0 = anything else."""
+    meta = tr["meta"]
+    if tr.get("end_of_run_time") is None or tr.get("resumed"):
+        return None
+    per = [hi for hi, h in enumerate(meta["handlers"])
+           if h.get("sampling_interval", h.get("dumping_interval")) is not None and "initial_event_time" in h]
+    if which >= len(per):
+        return None
+    hi = per[which]
+    h = meta["handlers"][hi]
+    legs = []
+    for leg in tr["legs"][:max_legs]:
+        if leg.get("pick") is None or leg.get("time") is None:
+            break
+        bases = meta["taggers"][meta["handlers"][leg["pick"]]["tagger"]]["handler_bases"]
+        kind = 1 if leg["pick"] == hi else (2 if "EndOfRunEventHandler" in bases else 0)
+        legs.append("(%d%%nat, %s)" % (kind, coq_ftime(leg["time"])))
+    if not legs:
+        return None
+    return "{| n_dt := %s; n_t0 := %s; n_end := %s; n_legs := %s |}" % (
+        fbz(h.get("sampling_interval", h.get("dumping_interval"))), coq_ftime(h["initial_event_time"]),
+        fbz(tr["end_of_run_time"]), C.coq_list(legs))
+
+
+COUNT_HEADER = ("Require Import JF.Base.F64 JF.Model.Kinematics JF.Model.Sampling JF.Model.SampleCount.\n"
+                "From Coq Require Import ZArith.")
+
 SAMPLING_HEADER = ("Require Import JF.Base.F64 JF.Model.Kinematics JF.Model.Sampling.\n"
                    "From Coq Require Import ZArith.")
 
